@@ -52,4 +52,109 @@ for integ, opts in configs:
             out.append(dict(integ=integ, opts=opts, safe=safe, split=split, N=n, N_active=sim.N_active,
                             tpt=sim.testparticle_type, ncalls=len(calls), pairs=pairs,
                             routines=sorted({c[0] for c in calls})))
-print("RESULT " + json.dumps(out))
+# ---------------------------------------------------------------- frame covariance at integrator level
+# The heliocentric / Jacobi maps used inside the integrators carry the centre of mass separately; if forward
+# and inverse maps are mutual inverses and slot 0 really is the COM, a run of the system shifted by d and
+# boosted by u equals the original run shifted by d + u t (exact arithmetic).  Includes TRACE/MERCURIUS
+# steps that are rejected and redone (close encounters, pericentre switches) and a COM far from the origin.
+cov = []
+def build(kind, integ, opts, d, u, rngs):
+    sim = rebound.Simulation()
+    sim.add(m=1.0)
+    if kind == "regular":
+        for i in range(1, 4):
+            sim.add(m=10 ** (-rngs.uniform(3, 5)), a=1.0 + 0.7 * i, e=rngs.uniform(0, 0.1), inc=rngs.uniform(0, 0.05), f=rngs.uniform(0, 6))
+    elif kind == "encounter":   # two planets on crossing orbits: close encounter within a few steps
+        sim.add(m=1e-3, a=1.0, e=0.05, f=0.0)
+        sim.add(m=1e-3, a=1.03, e=0.06, f=0.06, inc=0.001)
+        sim.add(m=1e-5, a=2.5, f=1.0)
+    elif kind == "approach":    # a faster inner planet catches up with the outer one: it ENTERS the critical radius during the
+        sim.add(m=1e-3, a=1.0, e=0.0, f=0.0)      # run, so that the step in which this happens is rejected and redone (TRACE) /
+        sim.add(m=1e-3, a=0.95, e=0.0, f=-0.27)   # switches to the encounter integration (MERCURIUS)
+        sim.add(m=1e-5, a=2.5, f=1.0)
+    else:                       # eccentric: pericentre switch of TRACE
+        sim.add(m=1e-4, a=1.0, e=0.93, f=-0.35)
+        sim.add(m=1e-4, a=4.0, e=0.1, f=2.0)
+    sim.move_to_com()
+    for p in sim.particles:
+        p.x += d[0]; p.y += d[1]; p.z += d[2]; p.vx += u[0]; p.vy += u[1]; p.vz += u[2]
+    sim.integrator = integ
+    sim.dt = 0.03 if kind != "regular" else 0.05
+    ri = {"whfast": sim.ri_whfast, "saba": sim.ri_saba, "mercurius": sim.ri_mercurius, "trace": sim.ri_trace}.get(integ)
+    for k, v in opts.items():
+        setattr(ri, k, v)
+    return sim
+cconfigs = [("whfast", dict(coordinates=c)) for c in ("jacobi", "democraticheliocentric", "whds", "barycentric")]
+cconfigs += [("whfast", dict(coordinates="jacobi", corrector=11, safe_mode=0)), ("saba", dict(type="4")), ("saba", dict(type="cl4")),
+             ("mercurius", {}), ("mercurius", dict(safe_mode=0)), ("trace", {}), ("trace", dict(peri_mode="PARTIAL_BS")), ("trace", dict(peri_mode="FULL_IAS15"))]
+for integ, opts in cconfigs:
+    for kind in ("regular", "encounter", "approach", "eccentric"):
+        if kind != "regular" and integ not in ("mercurius", "trace"):
+            continue
+        seedk = rng.next()
+        d = (10.0, -7.0, 3.0); u = (0.3, -0.2, 0.1)
+        try:
+            a = build(kind, integ, opts, (0, 0, 0), (0, 0, 0), SplitMix(seedk))
+            b = build(kind, integ, opts, d, u, SplitMix(seedk))
+            nst = 70 if kind == "approach" else 40
+            worst = 0.0; where = None
+            for st in range(nst):
+                a.steps(1); b.steps(1)
+                if st % 5 == 4 or st == nst - 1:
+                    a2 = a.copy(); b2 = b.copy(); a2.synchronize(); b2.synchronize()
+                    t = a2.t
+                    for i in range(a2.N):
+                        pa, pb = a2.particles[i], b2.particles[i]
+                        for c, (xa, xb) in enumerate(((pa.x, pb.x), (pa.y, pb.y), (pa.z, pb.z))):
+                            e = abs(xb - (xa + d[c] + u[c] * t))
+                            if e > worst:
+                                worst = e; where = (st, i, c)
+            cov.append(dict(integ=integ, opts=opts, kind=kind, worst=worst, where=where, t=a.t, steps_done=[a.steps_done, b.steps_done]))
+        except Exception as e:
+            cov.append(dict(integ=integ, opts=opts, kind=kind, error=repr(e)[:200]))
+# first-step rejection scan: a pair starts just outside the critical radius and closes in during the very first step
+# (the stored centre of mass is still the initial zero then); plus user frame shifts between steps
+def approach_pair(sep, vclose, d, u):
+    sim = rebound.Simulation()
+    sim.add(m=1.0)
+    sim.add(m=1e-3, x=1.0, vy=1.0)
+    sim.add(m=1e-3, x=1.0 + sep, vy=(1.0 / (1.0 + sep)) ** 0.5, vx=-vclose)
+    sim.add(m=1e-6, x=-3.0, vy=-0.57)
+    sim.move_to_com()
+    for p in sim.particles:
+        p.x += d[0]; p.y += d[1]; p.z += d[2]; p.vx += u[0]; p.vy += u[1]; p.vz += u[2]
+    return sim
+for integ, opts in (("trace", {}), ("trace", dict(peri_mode="PARTIAL_BS")), ("mercurius", {})):
+    worst = 0.0; where = None; nrun = 0
+    d = (10.0, -7.0, 3.0); u = (0.3, -0.2, 0.1)
+    for k in range(14):
+        sep = 0.20 + 0.01 * k
+        for vclose in (0.4, 1.2):
+            try:
+                a = approach_pair(sep, vclose, (0, 0, 0), (0, 0, 0)); b = approach_pair(sep, vclose, d, u)
+                for sim in (a, b):
+                    sim.integrator = integ; sim.dt = 0.05
+                    ri = sim.ri_trace if integ == "trace" else sim.ri_mercurius
+                    for kk, v in opts.items():
+                        setattr(ri, kk, v)
+                extra = 0.0
+                for st in range(4):
+                    a.steps(1); b.steps(1); nrun += 1
+                    a2 = a.copy(); b2 = b.copy(); a2.synchronize(); b2.synchronize()
+                    for i in range(a2.N):
+                        pa, pb = a2.particles[i], b2.particles[i]
+                        for c, (xa, xb) in enumerate(((pa.x, pb.x), (pa.y, pb.y), (pa.z, pb.z))):
+                            e = abs(xb - (xa + d[c] + u[c] * a2.t + (extra if c == 0 else 0.0)))
+                            if e > worst:
+                                worst = e; where = (sep, vclose, st, i, c)
+                    # the user shifts frame B between steps (a legal edit of a synchronised simulation)
+                    b.synchronize()
+                    for p in b.particles:
+                        p.x += 0.125
+                    extra += 0.125
+                    if integ == "mercurius":
+                        b.ri_mercurius.recalculate_coordinates_this_timestep = 1
+            except Exception as e:
+                cov.append(dict(integ=integ, opts=opts, kind="first-step-scan", error=repr(e)[:200]))
+    cov.append(dict(integ=integ, opts=opts, kind="first-step-scan", worst=worst, where=where, t=0.2, steps_done=[nrun, nrun]))
+print("RESULT " + json.dumps(dict(sites=out, cov=cov)))
